@@ -424,11 +424,28 @@ def run_engine(eng, lines, tag):
     return {"M": M, "O": O, "n": len(lines), "impl": impl, "model": model, "nbody": nbody}
 
 
-def run_miri(eng, lines, seed):
-    """replay a sample of scenario lines on the real crate under Miri; UB -> oracle failure"""
+def run_miri(eng, lines, seed, prefer=()):
+    """replay a sample of scenario lines on the real crate under Miri; UB -> oracle failure.
+    `prefer`: scenario lines on which model and implementation disagree — up to three per operation (the largest
+    lengths first) are replayed before the random sample, so that a change Miri alone can see (provenance) is looked
+    for where the tie broke."""
     import random
     rng = random.Random(seed)
     sample = lines if len(lines) <= eng.miri else rng.sample(lines, eng.miri)
+    if prefer and len(lines) > eng.miri:
+        byop = {}
+        for l in prefer:
+            byop.setdefault(l.split()[0], []).append(l)
+
+        def nval(l):
+            m = re.search(r"\bn=(\d+)", l)
+            return int(m.group(1)) if m else 0
+        first = []
+        for op in sorted(byop):
+            cands = sorted(set(byop[op]), key=lambda l: (-min(nval(l), 40), l))
+            first += cands[:3]
+        first = first[: max(1, eng.miri // 2)]
+        sample = first + [l for l in sample if l not in first][: eng.miri - len(first)]
     numbered = ["%d %s %s" % (k, eng.name, l) for k, l in enumerate(sample)]
     env = dict(ENV, MIRIFLAGS="-Zmiri-disable-isolation -Zmiri-ignore-leaks", CARGO_TARGET_DIR=os.path.join(BUILD, "miri"), GA_FLUSH="1")
     cmd = ["cargo", "+nightly", "miri", "run", "--offline", "--quiet", "--bin", eng.bin]
@@ -502,7 +519,7 @@ def check(prop, tier, seed, params):
         all_M += r["M"]
         all_O += r["O"]
         if eng.miri and (tier == "thorough" or widen) and "build_error" not in r:
-            mo, mn = run_miri(eng, lines, seed)
+            mo, mn = run_miri(eng, lines, seed, prefer=[m["scenario"] for m in r["M"]])
             all_O += mo
             evaluations += mn
             notes.append("miri: %d scenarios of engine %s replayed, %d UB reports" % (mn, eng.name, len(mo)))
